@@ -152,3 +152,20 @@ Definition pc_public_spec {A} (ts : list Z) (rows : list A) (tref : list Z) (ep 
   let k0 := Z.to_nat (w0 / bs) in
   let k1 := Z.to_nat (w1 / bs) in
   (map (fun k => (Z.of_nat k - Z.of_nat k0) * bs) (seq 0 (k0 + k1 + 1)), pc_spec ts rows tref ep k0 k1).
+
+(* ------------------------------------------------------------------ *)
+(* the scatter BEFORE the repair (commit fc9f7b0), kept for the refuted statement: the columns of a group were
+   selected by window size only and written at EVERY start offset (np.unique = sorted distinct values) *)
+Definition np_unique (l : list nat) : list nat :=
+  filter (fun k => existsb (Nat.eqb k) l) (seq 0 (S (fold_right Nat.max 0%nat l))).
+Definition scatter_group_size_only {A} (data : list A) (wins : list (nat * nat * nat)) (wsize wstart : nat)
+  (M : list (list (option A))) : list (list (option A)) :=
+  map (fun wc : (nat * nat * nat) * list (option A) =>
+         let (w, col) := wc in
+         if (pc_wsize w =? wsize)%nat
+         then write_rows col wstart (slice (fst (fst w)) (snd (fst w)) data) else col)
+      (combine wins M).
+Definition scatter_size_only {A} (total : nat) (data : list A) (wins : list (nat * nat * nat)) : list (list (option A)) :=
+  fold_left (fun M ws => fold_left (fun M' st => scatter_group_size_only data wins ws st M') (np_unique (map pc_wstart wins)) M)
+            (np_unique (map pc_wsize wins))
+            (map (fun _ => repeat None total) wins).
